@@ -174,6 +174,7 @@ func (_this *BuilderEventReceiver) OnTime(value compact_time.Time) {
 	_this.context.CurrentBuilder.BuildFromTime(&_this.context, value, _this.object)
 }
 func (_this *BuilderEventReceiver) OnArray(arrayType events.ArrayType, elementCount uint64, value []byte) {
+	_this.context.arrayElementCount = elementCount
 	_this.context.CurrentBuilder.BuildFromArray(&_this.context, arrayType, value, _this.object)
 }
 func (_this *BuilderEventReceiver) OnStringlikeArray(arrayType events.ArrayType, value string) {
@@ -191,7 +192,8 @@ func (_this *BuilderEventReceiver) OnCustomText(customType uint64, value string)
 func (_this *BuilderEventReceiver) OnArrayBegin(arrayType events.ArrayType) {
 	_this.context.BeginArray(arrayType.ElementSize(), func(ctx *Context) {
 		bytes := ctx.chunkedData
-		elementCount := common.ByteCountToElementCount(arrayType.ElementSize(), uint64(len(bytes)))
+		// The sum of the chunk lengths (a byte count cannot give the exact length of a bit array)
+		elementCount := ctx.arrayElementCount
 		_this.OnArray(arrayType, elementCount, bytes)
 	})
 }
